@@ -364,3 +364,345 @@ Proof.
     + apply nw_done_out.
     + intros x Hx. apply oks_done_out in Hx. apply Hx.
 Qed.
+
+(* ---- the events other than a read ---------------------------------------------------------------- *)
+Lemma ginv_cur_some st c : GInv st -> cur st = Some c -> cfut c = FPending /\ failed st = false.
+Proof.
+  intros (Hq & _ & Hf) Hc. split; [exact (Hq c Hc)|].
+  destruct (failed st); [|reflexivity]. rewrite (Hf eq_refl) in Hc. discriminate.
+Qed.
+
+Lemma cur_key_some st c : cur st = Some c -> cur_key st = Some (cid c, cpayload c, cfrm c).
+Proof. intro H. unfold cur_key. rewrite H. reflexivity. Qed.
+
+Lemma tick_smove st : GInv st ->
+  smove false st (rx_seq st) (fst (host_step st Tick)) (snd (host_step st Tick))
+  /\ rx_seq (fst (host_step st Tick)) = rx_seq st.
+Proof.
+  intro HG. cbn [host_step]. destruct (cur st) as [c|] eqn:Hc.
+  - destruct (ginv_cur_some st c HG Hc) as [Hp Hf]. rewrite Hp.
+    apply retry_smove; try reflexivity.
+    + apply cur_key_some. exact Hc.
+    + exact Hf.
+    + discriminate.
+  - cbn [fst snd]. split; [|reflexivity]. apply SM_none; try reflexivity. exact nw_nil.
+Qed.
+
+Lemma wait_smove st t :
+  smove false st (rx_seq st) (fst (host_step st (WaitTo t))) (snd (host_step st (WaitTo t)))
+  /\ rx_seq (fst (host_step st (WaitTo t))) = rx_seq st.
+Proof.
+  destruct (step_wait_cases st t) as [Eo [Es|Es]]; rewrite Eo, Es; (split; [|reflexivity]);
+    apply SM_none; try reflexivity; exact nw_nil.
+Qed.
+
+Lemma cancel_smove st id :
+  smove false st (rx_seq st) (fst (host_step st (CancelCaller id))) (snd (host_step st (CancelCaller id)))
+  /\ rx_seq (fst (host_step st (CancelCaller id))) = rx_seq st.
+Proof.
+  destruct (step_cancel_cases st id) as [E|E]; rewrite E; cbn [fst snd]; (split; [|reflexivity]);
+    apply SM_none; try reflexivity; exact nw_nil.
+Qed.
+
+(* a caller arrives: queued behind the current send, refused at once, or transmitted *)
+Lemma submit_cases st id p : GInv st ->
+  let r := host_step st (Submit id p) in
+  rx_seq (fst r) = rx_seq st /\
+  ((cur st <> None /\ tx_seq (fst r) = tx_seq st /\ failed (fst r) = failed st /\
+    waiters (fst r) = waiters st ++ [(id, p)] /\ cur_key (fst r) = cur_key st /\ snd r = [])
+   \/ (cur st = None /\ failed st = true /\ tx_seq (fst r) = tx_seq st /\ failed (fst r) = true /\
+       waiters (fst r) = [] /\ cur_key (fst r) = None /\ nw (snd r) /\ oks (snd r) = [])
+   \/ (cur st = None /\ failed st = false /\ tx_seq (fst r) = ((tx_seq st + 1) mod 8)%N /\
+       failed (fst r) = false /\ waiters (fst r) = [] /\ cur_key (fst r) = Some (id, p, tx_seq st) /\
+       exists t, snd r = [HData id (tx_seq st) 0 (rx_seq st) p t])).
+Proof.
+  intros HG r. subst r. rewrite step_submit_eq. destruct (cur st) as [c|] eqn:Hc.
+  - cbn [fst snd queued rx_seq]. split; [reflexivity|]. left.
+    split; [discriminate|]. unfold cur_key. cbn [queued tx_seq failed waiters cur]. rewrite Hc.
+    repeat split.
+  - destruct (sn_cases (submitted st id p) eq_refl)
+      as [(oF & HoF & Heq & Hw)|(id' & p' & ws & Hf' & Hw' & Heq)]; rewrite Heq; cbn [fst snd].
+    + destruct Hw as [Hw|Hw]; [|discriminate Hw]. cbn [submitted failed] in Hw.
+      split; [reflexivity|]. right; left. cbn [flushed submitted tx_seq failed waiters].
+      split; [reflexivity|]. split; [exact Hw|]. split; [reflexivity|]. split; [exact Hw|].
+      split; [reflexivity|]. split; [reflexivity|]. split; [apply nw_alldone; exact HoF|apply oks_alldone; exact HoF].
+    + cbn [submitted failed waiters] in Hf', Hw'. injection Hw' as E1 E2 E3. subst id' p' ws.
+      split; [reflexivity|]. right; right. cbn [started submitted tx_seq rx_seq failed waiters now].
+      split; [reflexivity|]. split; [exact Hf'|]. split; [reflexivity|]. split; [reflexivity|].
+      split; [reflexivity|]. split; [reflexivity|]. eexists. reflexivity.
+Qed.
+
+(* ---- a read of one DATA / ACK / NAK frame -------------------------------------------------------- *)
+Definition f_ack (f : frame) : option N :=
+  match f with Data _ _ a _ | Ack _ _ a | Nak _ _ a => Some a | _ => None end.
+Definition f_nak (f : frame) : bool := match f with Nak _ _ _ => true | _ => false end.
+
+Definition ackd (st : hstate) (a : N) : bool :=
+  match cur st with Some c => ((a + 7) mod 8 =? cfrm c)%N | None => false end.
+
+Lemma core_fields st f a : f_ack f = Some a ->
+  tx_seq (core st f) = tx_seq st /\ failed (core st f) = failed st /\ waiters (core st f) = waiters st
+  /\ (cur st = None -> cur (core st f) = None)
+  /\ (forall c, cur st = Some c -> cfut c = FPending ->
+        cur (core st f) = Some (set_fut c (if ((a + 7) mod 8 =? cfrm c)%N then FAcked
+                                           else if f_nak f then FNaked else FPending))).
+Proof.
+  intro Hf.
+  destruct f as [frm re a0 p|res nr a0|res nr a0| |v code|v code]; cbn [f_ack] in Hf; try discriminate;
+    injection Hf as Hf; subst a0; cbn [core f_nak].
+  - destruct (handle_ack_misc st a) as (H1 & H2 & _ & _ & H5 & _ & H7).
+    split; [exact H1|]. split; [exact H2|]. split; [exact H5|]. split; [exact H7|].
+    intros c Hc Hp. rewrite (handle_ack_cur st c a Hc), Hp.
+    destruct ((a + 7) mod 8 =? cfrm c)%N; reflexivity.
+  - destruct (handle_ack_misc st a) as (H1 & H2 & _ & _ & H5 & _ & H7).
+    split; [exact H1|]. split; [exact H2|]. split; [exact H5|]. split; [exact H7|].
+    intros c Hc Hp. rewrite (handle_ack_cur st c a Hc), Hp.
+    destruct ((a + 7) mod 8 =? cfrm c)%N; reflexivity.
+  - destruct (handle_ack_misc st a) as (H1 & H2 & _ & _ & H5 & _ & H7).
+    destruct (resolve_misc (handle_ack st a) FNaked) as (K1 & K2 & _ & _ & K5 & _ & K7).
+    split; [congruence|]. split; [congruence|]. split; [congruence|].
+    split; [intro Hn; apply K7; apply H7; exact Hn|].
+    intros c Hc Hp. rewrite (resolve_cur _ _ FNaked (handle_ack_cur st c a Hc)).
+    cbn [set_fut cfut cid cpayload cfrm cattempt csent cdeadline]. rewrite Hp.
+    destruct ((a + 7) mod 8 =? cfrm c)%N; reflexivity.
+Qed.
+
+Lemma frame_smove st f a : GInv st -> f_ack f = Some a ->
+  let r := host_step st (Frames [f]) in
+  let rr := rx_frame (rx_seq st) f in
+  exists out2, snd r = flat_map out_of_rx (snd rr) ++ out2 /\ rx_seq (fst r) = fst rr /\
+               smove (ackd st a) st (fst rr) (fst r) out2.
+Proof.
+  intros HG Hfa r rr. subst r rr. rewrite step_frames_eq, apply_frames_cons.
+  cbn [apply_frames fst snd]. rewrite app_nil_r, apply_frame_eq. cbn [fst snd].
+  set (rx' := fst (rx_frame (rx_seq st) f)).
+  set (s1 := set_rx (core st f) rx').
+  destruct (core_fields st f a Hfa) as (Ktx & Kf & Kw & Kn & Kc).
+  assert (S1tx : tx_seq s1 = tx_seq st) by exact Ktx.
+  assert (S1f : failed s1 = failed st) by exact Kf.
+  assert (S1w : waiters s1 = waiters st) by exact Kw.
+  assert (S1rx : rx_seq s1 = rx') by reflexivity.
+  exists (snd (settle s1)). split; [reflexivity|].
+  rewrite settle_eq. unfold ackd.
+  destruct (cur st) as [c|] eqn:Hc.
+  - destruct (ginv_cur_some st c HG Hc) as [Hp Hff].
+    assert (S1c : cur s1 = cur (core st f)) by reflexivity.
+    rewrite S1c, (Kc c eq_refl Hp).
+    assert (Hkey : forall y, cur_key st = Some (cid (set_fut c y), cpayload (set_fut c y), cfrm (set_fut c y))).
+    { intro y. cbn [set_fut cid cpayload cfrm]. apply cur_key_some. exact Hc. }
+    destruct ((a + 7) mod 8 =? cfrm c)%N.
+    + cbn [cfut set_fut].
+      set (s2 := set_t s1 (on_ack_time (t_ack s1) (PrimFloat.sub (now s1) (csent c)))).
+      change (done_out s1 (cid c) OOk) with (done_out s2 (cid (set_fut c FAcked)) OOk).
+      destruct (acked_smove st s2 (set_fut c FAcked) rx' (Hkey FAcked)) as [Hm Hr];
+        try assumption; try reflexivity.
+      * cbn [s2 set_t failed]. rewrite S1f. exact Hff.
+      * split; [exact Hr|exact Hm].
+    + destruct (f_nak f); cbn [cfut set_fut].
+      * set (s2 := set_t s1 (on_ack_time (t_ack s1) (PrimFloat.sub (now s1) (csent c)))).
+        destruct (retry_smove false st s2 (set_fut c FNaked) ONotAcked rx' (Hkey FNaked)) as [Hm Hr];
+          try assumption; try reflexivity; try discriminate.
+        -- cbn [s2 set_t failed]. rewrite S1f. exact Hff.
+        -- split; [exact Hr|exact Hm].
+      * cbn [fst snd]. split; [reflexivity|]. apply SM_none; try assumption.
+        -- unfold cur_key. rewrite S1c, (Kc c eq_refl Hp), Hc.
+           destruct ((a + 7) mod 8 =? cfrm c)%N; destruct (f_nak f); reflexivity.
+        -- exact nw_nil.
+        -- reflexivity.
+  - assert (S1c : cur s1 = None) by (apply Kn; reflexivity). rewrite S1c. cbn [fst snd].
+    split; [reflexivity|]. apply SM_none; try assumption.
+    + unfold cur_key. rewrite S1c, Hc. reflexivity.
+    + exact nw_nil.
+    + reflexivity.
+Qed.
+
+(* ================================================================================================ *)
+(* (4) the system invariant                                                                          *)
+(* ================================================================================================ *)
+(* order-preserving sub-sequence *)
+Inductive subseq {A} : list A -> list A -> Prop :=
+| ss_nil : subseq [] []
+| ss_skip x l1 l2 : subseq l1 l2 -> subseq l1 (x :: l2)
+| ss_take x l1 l2 : subseq l1 l2 -> subseq (x :: l1) (x :: l2).
+
+Lemma subseq_nil_l {A} (l : list A) : subseq [] l.
+Proof. induction l; [apply ss_nil|apply ss_skip; assumption]. Qed.
+Lemma subseq_refl {A} (l : list A) : subseq l l.
+Proof. induction l; [apply ss_nil|apply ss_take; assumption]. Qed.
+Lemma subseq_app {A} (a b c d : list A) : subseq a b -> subseq c d -> subseq (a ++ c) (b ++ d).
+Proof. induction 1; intro H2; cbn; [exact H2|apply ss_skip; auto|apply ss_take; auto]. Qed.
+Lemma subseq_app_r {A} (a b c : list A) : subseq a b -> subseq a (b ++ c).
+Proof. intro H. rewrite <- (app_nil_r a). apply subseq_app; [exact H|apply subseq_nil_l]. Qed.
+Lemma subseq_snoc {A} (a b : list A) x : subseq a b -> subseq (a ++ [x]) (b ++ [x]).
+Proof. intro H. apply subseq_app; [exact H|apply subseq_refl]. Qed.
+Lemma subseq_map {A B} (f : A -> B) a b : subseq a b -> subseq (map f a) (map f b).
+Proof. induction 1; cbn; [apply ss_nil|apply ss_skip; assumption|apply ss_take; assumption]. Qed.
+Lemma subseq_In {A} (a b : list A) x : subseq a b -> In x a -> In x b.
+Proof.
+  induction 1 as [|y l1 l2 H IH|y l1 l2 H IH]; intro Hin; [exact Hin|right; auto|].
+  destruct Hin as [E|Hin]; [left; exact E|right; auto].
+Qed.
+Lemma subseq_NoDup {A} (a b : list A) : subseq a b -> NoDup b -> NoDup a.
+Proof.
+  induction 1 as [|y l1 l2 H IH|y l1 l2 H IH]; intro Hnd; [exact Hnd| |];
+    inversion Hnd as [|? ? Hy Hl]; subst; [auto|].
+  constructor; [|auto]. intro Hin. apply Hy. eapply subseq_In; eassumption.
+Qed.
+Lemma subseq_firstn {A} (l : list A) n : subseq (firstn n l) l.
+Proof.
+  revert n. induction l as [|x l IH]; intros [|n]; cbn.
+  - apply ss_nil.
+  - apply ss_nil.
+  - apply subseq_nil_l.
+  - apply ss_take. apply IH.
+Qed.
+
+(* the host's sender half against the abstract window [hb, length ftx) of width <= 1:
+   ftx = sends first-transmitted so far, subs = sends submitted so far, okl = sends reported done *)
+Record HL (st : hstate) (hb : nat) (ftx subs : list (N * list N)) (okl : list N) : Prop := {
+  hl_tx : tx_seq st = num8 (length ftx);
+  hl_cur : match cur_key st with
+           | Some (id, p, frm) =>
+               length ftx = hb + 1 /\ frm = num8 hb /\ failed st = false /\ nth_error ftx hb = Some (id, p)
+           | None => waiters st = [] /\ (failed st = false -> length ftx = hb)
+           end;
+  hl_sub : exists A, subs = A ++ waiters st /\ subseq ftx A;
+  hl_ok : forall id, In id okl -> In id (map fst (firstn hb ftx))
+}.
+
+Lemma in_firstn_S {A} (l : list A) n x : In x (firstn n l) -> In x (firstn (S n) l).
+Proof.
+  revert n. induction l as [|y l IH]; intros [|n]; cbn [firstn]; intro Hin; try (destruct Hin; fail).
+  destruct Hin as [E|Hin]; [left; exact E|right; apply IH; exact Hin].
+Qed.
+
+Lemma firstn_app_exact {A} (l l' : list A) n : length l = n -> firstn n (l ++ l') = firstn n l.
+Proof. intro E. rewrite firstn_app. replace (n - length l) with 0 by lia. cbn. apply app_nil_r. Qed.
+
+Lemma dgs_snoc_none gl a : dgs (gl ++ [{| ga := a; gd := None |}]) = dgs gl.
+Proof. rewrite dgs_app. cbn. apply app_nil_r. Qed.
+Lemma dgs_snoc_some gl a x : dgs (gl ++ [{| ga := a; gd := Some x |}]) = dgs gl ++ [x].
+Proof. rewrite dgs_app. reflexivity. Qed.
+Lemma ags_snoc gl g : ags (gl ++ [g]) = ags gl ++ [ga g].
+Proof. rewrite ags_app. reflexivity. Qed.
+
+(* the host starts the next send: first transmission of frame number length ftx *)
+Lemma start_piece hb ftx nr nupl g1 ag2 q1 id2 p2 frm rxn hr t :
+  length ftx = hb -> frm = num8 (length ftx) -> rxn = num8 hr ->
+  Dir 1 hb (length ftx) nr (map snd ftx) nupl (dgs g1) ag2 ->
+  Forall2 (fr_ok (map snd ftx)) q1 g1 ->
+  let g := {| ga := hr; gd := Some (hb, hb) |} in
+  let ftx' := ftx ++ first_tx [HData id2 frm 0 rxn p2 t] in
+  Dir 1 hb (length ftx') nr (map snd ftx') nupl (dgs (g1 ++ [g])) ag2 /\
+  Forall2 (fr_ok (map snd ftx')) (q1 ++ wire [HData id2 frm 0 rxn p2 t]) (g1 ++ [g]) /\
+  nth_error ftx' hb = Some (id2, p2) /\ length ftx' = hb + 1.
+Proof.
+  intros Hlen Hfrm Hrxn D2 F2 g ftx'. subst g ftx'. cbn [first_tx wire flat_map wire_of app N.eqb].
+  rewrite dgs_snoc_some, map_app, app_length. cbn [map snd length].
+  split; [|split; [|split]].
+  - apply (dir_sent_app _ _ _ _ _ _ _ _ _ [p2]) in D2.
+    apply (dir_send _ _ _ _ _ _ _ _ _ hb) in D2; try lia.
+    + replace (length ftx + 1) with (Nat.max (length ftx) (S hb)) by lia. exact D2.
+    + rewrite app_length, map_length. cbn. lia.
+  - apply frs_ok_snoc; [apply frs_ok_app; exact F2|]. cbn [fr_ok ga gd]. split; [exact Hrxn|].
+    exists hb, hb. split; [reflexivity|]. split; [rewrite Hfrm, Hlen; reflexivity|].
+    rewrite nth_error_app2; rewrite map_length; [|lia]. replace (hb - length ftx) with 0 by lia. reflexivity.
+  - rewrite nth_error_app2 by lia. replace (hb - length ftx) with 0 by lia. reflexivity.
+  - lia.
+Qed.
+
+Lemma inv_smove K akd st rxn st' out2 hb ftx subs okl nb nn hr nsub hupl dg2 g1 nr nupl ag2 q1 :
+  HL st hb ftx subs okl ->
+  Dir K nb nn hr nsub hupl dg2 (ags g1) ->
+  Dir 1 hb (length ftx) nr (map snd ftx) nupl (dgs g1) ag2 ->
+  Forall2 (fr_ok (map snd ftx)) q1 g1 ->
+  rxn = num8 hr ->
+  smove akd st rxn st' out2 ->
+  (akd = true -> hb + 1 <= nr /\ Forall (fun x => hb + 1 <= x) ag2) ->
+  exists g1' hb',
+    HL st' hb' (ftx ++ first_tx out2) subs (okl ++ oks out2) /\
+    Dir K nb nn hr nsub hupl dg2 (ags g1') /\
+    Dir 1 hb' (length (ftx ++ first_tx out2)) nr (map snd (ftx ++ first_tx out2)) nupl (dgs g1') ag2 /\
+    Forall2 (fr_ok (map snd (ftx ++ first_tx out2))) (q1 ++ wire out2) g1' /\
+    ups_of out2 = [].
+Proof.
+  intros [Htx0 Hcur0 Hsub0 Hok0] D1 D2 F2 Hrxn M Hak.
+  destruct M as [Htx Hf Hw Hk (Hn1 & Hn2 & Hn3) Hok
+                |id p frm t Hk0 Htx Hf Hw Hk Hout
+                |Hk0 Htx Hf Hw Hk (Hn1 & Hn2 & Hn3) Hok
+                |id p frm Ha Hk0 Hw0 Htx Hf Hw Hk (Hn1 & Hn2 & Hn3) Hok
+                |id p frm id2 p2 ws pre t Ha Hk0 Hw0 Htx Hf Hw Hk Hout (Hn1 & Hn2 & Hn3) Hok].
+  - (* nothing *)
+    exists g1, hb. rewrite Hn1, Hn2, Hok, !app_nil_r.
+    split; [|split; [exact D1|split; [exact D2|split; [exact F2|exact Hn3]]]].
+    constructor.
+    + rewrite Htx. exact Htx0.
+    + rewrite Hk, Hf, Hw. exact Hcur0.
+    + rewrite Hw. exact Hsub0.
+    + exact Hok0.
+  - (* a retransmission of frame hb *)
+    subst out2. rewrite Hk0 in Hcur0. destruct Hcur0 as (Hlen & Hfrm & Hff & Hnth).
+    exists (g1 ++ [{| ga := hr; gd := Some (hb, hb) |}]), hb.
+    cbn [first_tx wire oks ups_of flat_map wire_of app N.eqb]. rewrite !app_nil_r.
+    split; [|split; [|split; [|split; [|reflexivity]]]].
+    + constructor.
+      * rewrite Htx. exact Htx0.
+      * rewrite Hk, Hk0. split; [exact Hlen|]. split; [exact Hfrm|]. split; [exact Hf|exact Hnth].
+      * rewrite Hw. exact Hsub0.
+      * exact Hok0.
+    + rewrite ags_snoc. cbn [ga]. apply dir_ack_snoc. exact D1.
+    + rewrite dgs_snoc_some.
+      apply (dir_send _ _ _ _ _ _ _ _ _ hb) in D2; try lia.
+      * replace (Nat.max (length ftx) (S hb)) with (length ftx) in D2 by lia. exact D2.
+      * rewrite map_length. lia.
+    + apply frs_ok_snoc; [exact F2|]. cbn [fr_ok ga gd]. split; [exact Hrxn|].
+      exists hb, hb. split; [reflexivity|]. split; [exact Hfrm|].
+      apply (map_nth_error snd) in Hnth. exact Hnth.
+  - (* the link has failed *)
+    exists g1, hb. rewrite Hn1, Hn2, Hok, !app_nil_r.
+    split; [|split; [exact D1|split; [exact D2|split; [exact F2|exact Hn3]]]].
+    constructor.
+    + rewrite Htx. exact Htx0.
+    + rewrite Hk. split; [exact Hw|]. intro H. congruence.
+    + rewrite Hw, app_nil_r. destruct Hsub0 as (A & HA & Hss). exists (A ++ waiters st).
+      split; [exact HA|apply subseq_app_r; exact Hss].
+    + exact Hok0.
+  - (* acknowledged, nothing queued *)
+    destruct (Hak Ha) as [Hnr Hag]. rewrite Hk0 in Hcur0. destruct Hcur0 as (Hlen & Hfrm & Hff & Hnth).
+    exists g1, (hb + 1). rewrite Hn1, Hn2, !app_nil_r.
+    split; [|split; [exact D1|split; [|split; [exact F2|exact Hn3]]]].
+    + constructor.
+      * rewrite Htx. exact Htx0.
+      * rewrite Hk. split; [exact Hw|]. intros _. exact Hlen.
+      * rewrite Hw, <- Hw0. exact Hsub0.
+      * intros x Hx. apply in_app_or in Hx. replace (hb + 1) with (S hb) by lia.
+        destruct Hx as [Hx|Hx]; [rewrite firstn_map in *|].
+        -- apply in_map_iff. apply Hok0 in Hx. apply in_map_iff in Hx. destruct Hx as (y & Hy & Hin).
+           exists y. split; [exact Hy|apply in_firstn_S; exact Hin].
+        -- apply Hok in Hx. subst x. rewrite (firstn_S_nth_error _ _ _ Hnth), map_app.
+           apply in_or_app. right. left. reflexivity.
+    + apply (dir_base_up _ _ hb); [exact D2|lia|exact Hnr|exact Hag].
+  - (* acknowledged, the next queued send starts *)
+    destruct (Hak Ha) as [Hnr Hag]. rewrite Hk0 in Hcur0. destruct Hcur0 as (Hlen & Hfrm & Hff & Hnth).
+    subst out2. rewrite first_tx_app, wire_app, oks_app, ups_of_app, Hn1, Hn2, Hn3. cbn [app].
+    assert (D2' : Dir 1 (hb + 1) (length ftx) nr (map snd ftx) nupl (dgs g1) ag2).
+    { apply (dir_base_up _ _ hb); [exact D2|lia|exact Hnr|exact Hag]. }
+    destruct (start_piece (hb + 1) ftx nr nupl g1 ag2 q1 id2 p2 (tx_seq st) rxn hr t Hlen Htx0 Hrxn D2' F2)
+      as (E1 & E2 & E3 & E4).
+    exists (g1 ++ [{| ga := hr; gd := Some (hb + 1, hb + 1) |}]), (hb + 1).
+    split; [|split; [|split; [exact E1|split; [exact E2|reflexivity]]]].
+    + constructor.
+      * rewrite Htx, Htx0, num8_S. f_equal. cbn [first_tx flat_map N.eqb app]. rewrite app_length. cbn. lia.
+      * rewrite Hk. split; [exact E4|]. split; [rewrite Htx0, Hlen; reflexivity|]. split; [exact Hf|exact E3].
+      * rewrite Hw. destruct Hsub0 as (A & HA & Hss). rewrite Hw0 in HA. exists (A ++ [(id2, p2)]).
+        split; [rewrite <- app_assoc; exact HA|]. cbn [first_tx flat_map N.eqb app]. apply subseq_snoc. exact Hss.
+      * intros x Hx. cbn [oks flat_map app] in Hx. rewrite app_nil_r in Hx. apply in_app_or in Hx.
+        cbn [first_tx flat_map N.eqb app]. rewrite (firstn_app_exact _ _ _ Hlen).
+        replace (hb + 1) with (S hb) by lia.
+        destruct Hx as [Hx|Hx].
+        -- rewrite firstn_map in *. apply in_map_iff. apply Hok0 in Hx. apply in_map_iff in Hx.
+           destruct Hx as (y & Hy & Hin). exists y. split; [exact Hy|apply in_firstn_S; exact Hin].
+        -- apply Hok in Hx. subst x. rewrite (firstn_S_nth_error _ _ _ Hnth), map_app.
+           apply in_or_app. right. left. reflexivity.
+    + rewrite ags_snoc. cbn [ga]. apply dir_ack_snoc. exact D1.
+Qed.
